@@ -100,7 +100,7 @@ theorem rmAnn_ok (s : State) (r : Ref) (h : Nat) (hi : Inv s) (ht : TargetsLt s)
 
 /-- **removing a resource that exists succeeds** -/
 theorem rmRes_ok (s : State) (id : String) (rh : Nat) (hi : Inv s) (ht : TargetsLt s)
-    (hres : s.resolveRes id = some rh) : (s.rmRes id).1 = .ok "-" := by
+    (hres : s.lookupRes id = some rh) : (s.rmRes id).1 = .ok "-" := by
   unfold State.rmRes
   simp only [hres]
   obtain ⟨s1, hs1⟩ := removeAll_ok (s.lookup (.resMeta rh)) s hi ht
@@ -113,7 +113,7 @@ theorem rmRes_ok (s : State) (id : String) (rh : Nat) (hi : Inv s) (ht : Targets
 
 /-- **removing a dataset that exists succeeds** -/
 theorem rmSet_ok (s : State) (id : String) (sh : Nat) (hi : Inv s) (ht : TargetsLt s)
-    (hres : s.resolveSet id = some sh) : (s.rmSet id).1 = .ok "-" := by
+    (hres : s.lookupSet id = some sh) : (s.rmSet id).1 = .ok "-" := by
   unfold State.rmSet
   simp only [hres]
   generalize hl : dedupSorted _ = l
